@@ -6,7 +6,8 @@
      has_impl                597-700   -> has_impl
      finalize (enum)         313-343   -> finalize_bespoke
      untagged_newtype_variants 1998-2020 -> untagged_newtype_variants
-     output_enum             806-866   -> simple-enum templates (from_str/display, SEnum)
+     output_enum             806-872   -> simple-enum templates (from_str/display, SEnum; Display
+                                          literal = raw name with braces escaped, fix a0ebad5)
                              879-950   -> untagged templates (first_some / SUntagged)
      output_newtype          1358-1446 -> CNone (str_impl / from_str_impl / display_impl)
                              1448-1510 -> CEnum / CDeny (TryFrom<inner> + Deserialize)
@@ -95,6 +96,17 @@ Fixpoint fmt_render (s : ustring) : option ustring :=
 
 Definition brace_free (s : ustring) : bool :=
   forallb (fun c => negb (c =? 123) && negb (c =? 125)) s.
+
+(* type_entry.rs 824-829 (fix a0ebad5): the literal handed to write! is the raw name with
+   `{` -> `{{` and `}` -> `}}` (str::replace twice) *)
+Fixpoint fmt_escape (s : ustring) : ustring :=
+  match s with
+  | [] => []
+  | c :: r =>
+      if c =? 123 then 123 :: 123 :: fmt_escape r
+      else if c =? 125 then 125 :: 125 :: fmt_escape r
+      else c :: fmt_escape r
+  end.
 
 (* serde name of a variant: #[serde(rename = raw)] iff raw <> ident, else the ident *)
 Definition serde_name (v : variant) : ustring :=
@@ -388,7 +400,7 @@ Fixpoint display (T : space) (fuel : nat) (t : id) (x : sval) : option ustring :
     | Some (DEnum _ _ tag vs _ bes), SEnum k =>
         if has_bespoke AllSimpleVariants bes then
           match nth_error vs k with
-          | Some v => fmt_render (v_raw v)                           (* write!(f, #raw) *)
+          | Some v => fmt_render (fmt_escape (v_raw v))              (* write!(f, #fmt_str) *)
           | None => None
           end
         else None
@@ -428,7 +440,7 @@ Fixpoint ser_str (T : space) (fuel : nat) (t : id) (x : sval) : option ustring :
   end.
 
 (* ---------------- side condition of the Display theorem ---------------- *)
-(* raw names of reachable simple enums contain no brace; reachable natives print as they serialise *)
+(* reachable natives print as they serialise (raw names with braces are fine since a0ebad5) *)
 Fixpoint display_ok (T : space) (fuel : nat) (t : id) : bool :=
   match fuel with
   | O => false
@@ -439,7 +451,7 @@ Fixpoint display_ok (T : space) (fuel : nat) (t : id) : bool :=
     | Some (DBox i) => display_ok T f i
     | Some (DNewtype _ _ i CNone) => display_ok T f i
     | Some (DNewtype _ _ i _) => true
-    | Some (DEnum _ _ TagExternal vs _ _) => forallb (fun v => brace_free (v_raw v)) vs
+    | Some (DEnum _ _ TagExternal vs _ _) => true
     | Some (DEnum _ _ TagUntagged vs _ _) =>
         forallb (fun v => match v_det v with VItem i => display_ok T f i | _ => true end) vs
     | _ => true
